@@ -44,7 +44,7 @@ def unknown_field(rng):
 class C18(Prop):
     id = "C18"
     props = "C18_Props"
-    coq_files = ("Base", "C18_Model", "C18_Spec", "C18_Proofs", "C18_Props")
+    coq_files = ("Base", "C18_Model", "C18_Spec", "C18_Proofs", "C18_Instances", "C18_Props")
     models = ("C18_Model",)
     packages = {"int": "internal", "gu": "internal/grpcutil"}
     kinds = {"c18.err_connect": "int", "c18.err_go": "int", "c18.http": "int", "c18.codec_rt": "int", "c18.codec_unknown": "int",
@@ -59,23 +59,35 @@ class C18(Prop):
             "all strings <=4 over {%,4,a,G,g,+, } for the decoder; all strings <=5 over {Q,/,=,LF,-} for DecodeBinaryHeader; "
             "message trees laid over ClientCompatRequest/RawHTTPRequest/StreamContents/StreamItem/MessageContents/Any with unknown "
             "fields (5 wire types) injected at depth 0-5 for both strict codecs. non-trivial = result longer than a tag")
-    trusted_base = ("Coq 8.16.1 kernel (vm_compute used, native_compute not)", "extraction (ExtrOcamlBasic only) + ocaml/driver.ml",
+    trusted_base = ("Coq 8.16.1 kernel (vm_compute used for the 256-value byte sweeps, native_compute not)",
+                    "extraction (ExtrOcamlBasic only) + ocaml/driver.ml",
                     "vlib generators/comparator, Go overlay harness files (harness/C18)",
-                    "oracles (Section variables with round-trip hypotheses): base64 (connect.Encode/DecodeBinaryHeader; the Gallina "
-                    "instance used for extraction is compared with the Go functions on every run), connect.NewErrorDetail/Type/Bytes, "
-                    "proto.Marshal/Unmarshal, protojson (contract-level instance), grpc-go status.FromError/ErrorProto and "
-                    "metadata.FromOutgoingContext, url.PathUnescape, textproto.CanonicalMIMEHeaderKey (modelled, compared, not verified)")
+                    "external libraries, in the theorems only as universally quantified functions under the contracts of C18_Spec.v: "
+                    "base64 = connect.EncodeBinaryHeader/DecodeBinaryHeader (b64_contract: dec (enc x) = Some x on byte strings; the Gallina "
+                    "transcription used for extraction is PROVED to satisfy it and is compared with the Go functions on every run, kind c18.b64); "
+                    "connect.NewErrorDetail/ErrorDetail.Type/Bytes (detail_contract); proto.Marshal/Unmarshal (bin_contract); "
+                    "protojson.Marshal/Unmarshal with DiscardUnknown unset (json_contract); the contract-level instances are proved to satisfy them "
+                    "(contracts_inhabited)",
+                    "modelled third-party behaviour inside the model, compared on every run but not verified: grpc-go status.ErrorProto/FromError "
+                    "(nil for OK, wrapped status keeps code+details with the wrapper's text) and metadata.AppendToOutgoingContext/FromOutgoingContext "
+                    "(lower-cased keys, append), url.PathUnescape as the percent decoder, textproto.CanonicalMIMEHeaderKey, strings.ToLower on ASCII")
     assumptions = ("header names are ASCII (strings.ToLower on non-ASCII / invalid UTF-8 is not modelled)",
-                   "error codes are int32 values; byte strings consist of bytes (< 256)",
+                   "error codes are int32 values (theorems: int32 code; the generator also sends 0, 17, 18, 100, -1 and the int32 bounds); "
+                   "byte strings consist of bytes (< 256)",
+                   "an unset error message and an empty one are the same text: every conversion returns the message set",
+                   "type-URL restoration is exact for canonical URLs (default prefix + name); any other URL keeps its type name and gets the default prefix",
+                   "a -bin value that is not canonical base64 (padded, or not base64 at all) keeps its content and is re-encoded once, so its text may change",
                    "unknown fields inside the opaque value bytes of a google.protobuf.Any are outside the codecs' view",
                    "ConvertMetadataToProtoHeader encodes -bin values in place: it is applied once per metadata value")
 
     level_text = ("Machine-checked proof (Coq) that the model of the six error conversions, the header<->metadata conversions, the outgoing-context "
-                  "path, percent-encoding and the strict codecs' own logic are lossless (round-trip laws for all inputs, given round-trip "
-                  "hypotheses for base64, protobuf and connect.NewErrorDetail); the model is tied to the Go code by a differential run on every check.")
-    level_note = ("Trusted: Coq kernel, extraction, OCaml driver, harness; base64/protobuf/protojson/connect/grpc-go are oracles; the "
-                  "model-code correspondence is sampled (exhaustive over the 256 bytes and the small alphabets named in the rule), not proved.")
-    technique = "Coq round-trip proofs over oracle-parametrised model; differential model-vs-Go correspondence"
+                  "path, AddHeaders/ConvertToProtoHeader, percent-encoding and the strict codecs' own logic are lossless: round-trip laws for ALL "
+                  "inputs (17 theorems, closed under the global context), the libraries entering as quantified functions under explicit round-trip "
+                  "contracts that the extracted instances are proved to meet; the model is tied to the Go code by a differential run on every check.")
+    level_note = ("Trusted: Coq kernel, extraction, OCaml driver, harness; base64/protobuf/protojson/connect are contracts (base64 instance proved and "
+                  "compared with Go), grpc-go/net/url/textproto behaviour is modelled and compared; the model-code correspondence is sampled "
+                  "(exhaustive over the 256 bytes and the small alphabets named in the rule), not proved. Nothing is partial: no theorem carries the suffix.")
+    technique = "Coq round-trip proofs over contract-parametrised model; differential model-vs-Go correspondence"
 
     def nontrivial(self, case, res):
         return len(res) > 12
@@ -89,12 +101,6 @@ class C18(Prop):
                 "c18.codec_rt": "strict codec: Unmarshal(Marshal(m)) must give m (format 0=binary 1=JSON)",
                 "c18.codec_unknown": "strict codec must reject unknown fields at any depth"}.get(case[0], "") + \
             ": implementation differs from the proved lossless model"
-
-    def classify(self, case, g, m):
-        if case[0] == "c18.codec_unknown" and case[1] == 0 and g is not None and m is not None \
-                and "6f6b2d776974682d756e6b6e6f776e" in g and m == "#657272":
-            return "proto-codec-nested-unknown"
-        return None
 
     # ---------------------------------------------------------------- generators
     def gen_details(self, rng, n):
@@ -199,7 +205,7 @@ class C18(Prop):
                     e = [rng.randint(1, 16), [b"m"], ds]
                     yield ["c18.err_connect", e]
                     yield ["c18.err_grpc", rng.choice([0, 0, 2]), "wrapped: text", e]
-        for _ in range(600 if quick else 60000):
+        for _ in range(2000 if quick else 60000):
             e = self.gen_perr(rng)
             yield ["c18.err_connect", e]
             yield ["c18.err_go", rng.randint(0, 2), rng.choice([b"", b"plain error", b"ctx: \xffbad"]), e]
@@ -207,11 +213,11 @@ class C18(Prop):
         # ---- header lists
         yield ["c18.md", [["X-A", ["1"]], ["x-a", ["2"]]]]
         yield ["c18.outgoing", [["Key-Bin", [b"AQID"]]]]
-        for _ in range(1500 if quick else 100000):
+        for _ in range(4000 if quick else 100000):
             hs = self.gen_headers(rng)
             yield ["c18.md", hs]
             yield ["c18.outgoing", hs]
-        for _ in range(300 if quick else 20000):
+        for _ in range(1000 if quick else 20000):
             seen, hs = set(), []
             for h in self.gen_headers(rng):
                 if h[0] not in seen:
@@ -219,7 +225,7 @@ class C18(Prop):
                     hs.append(h)
             yield ["c18.md_back", hs]
         http_names = self.NAMES + ["x a", "x:a", "X-\u00e4", "a-b-c", "A-B-c", "x-a!", "x_a"]
-        for _ in range(400 if quick else 20000):
+        for _ in range(1500 if quick else 20000):
             yield ["c18.http", rng.randint(0, 1), self.gen_headers(rng, http_names)]
         # ---- percent-encoding: exhaustive over bytes, then random
         for b in range(256):
@@ -229,7 +235,7 @@ class C18(Prop):
             yield ["c18.percent", bytes([b, b]) + b"ok"]
         yield ["c18.percent", b""]
         alph = [bytes(range(256)), bytes(range(32, 127)), b"%%%a0F ", b"\xc3\xa4\xe2\x98\x83%~ \x7f\x1f"]
-        for _ in range(800 if quick else 100000):
+        for _ in range(3000 if quick else 100000):
             a = rng.choice(alph)
             yield ["c18.percent", bytes(rng.choice(a) for _ in range(rng.randint(0, 24)))]
         for n in range(0, 5 if quick else 6):
@@ -247,10 +253,10 @@ class C18(Prop):
             enc = base64.b64encode(raw)
             yield ["c18.b64", rng.choice([enc, enc.rstrip(b"="), enc + b"=", enc[:-1], enc.replace(b"A", b"\r\n")])]
         # ---- strict codecs
-        for _ in range(300 if quick else 20000):
+        for _ in range(1000 if quick else 20000):
             for codec in (0, 1):
                 yield ["c18.codec_rt", codec, self.gen_tree(rng, codec == 1, 0.0)]
-        for _ in range(500 if quick else 40000):
+        for _ in range(1500 if quick else 40000):
             for codec in (0, 1):
                 yield ["c18.codec_unknown", codec, self.gen_tree(rng, codec == 1, rng.choice([0.0, 0.1, 0.1, 0.3]))]
 
